@@ -49,9 +49,9 @@ def plan(tier, seed):
 
 def floors(tier):
     return {
-        "evaluations": 1000000,
+        "evaluations": 400000,
         "strata": ["sweep", "random", "insitu-export"],
-        "events": {"uni2tex": 1000000, "uni2tex.judged_full": 1000000, "uni2tex.commands_seen": 1000},
+        "events": {"uni2tex": 400000, "uni2tex.judged_full": 400000, "uni2tex.commands_seen": 1000},
         "distinct_nontrivial": 1000,
     }
 
